@@ -1,13 +1,24 @@
 #!/bin/bash
-# eval_mutant.sh <patch.diff> <budget_s> <ID>...   apply a seeded change to /repo, run the checks, undo it
-patch="$1"; budget="$2"; shift 2
+# eval_mutant.sh <patch.diff> <tier|budget_s> <ID>...
+#   applies a seeded change to /repo's working tree, runs the listed checks, undoes the change.
+#   <tier|budget_s>: "quick"/"thorough" = the registered command as is (fixed run count);
+#                    a number = as many runs as fit into that many seconds (sweep mode).
+#   Evidence and replay files of these runs go to target/mutant-out/, never to evidence/ or replays/.
+patch="$(readlink -f "$1")"; mode="$2"; shift 2
 cd /repo || exit 2
 git diff --quiet || { echo "repo not clean"; exit 2; }
 git apply "$patch" || git apply --3way "$patch" || { echo "patch does not apply"; exit 2; }
+trap 'git -C /repo checkout -- . ; git -C /repo status --short | head -3' EXIT
 cd /verif
+out_dir=/verif/target/mutant-out/$(basename "$(dirname "$patch")")-$(basename "$patch" .diff)
+mkdir -p "$out_dir/evidence" "$out_dir/replays"
+export VERIF_EVIDENCE_DIR="$out_dir/evidence" VERIF_REPLAY_DIR="$out_dir/replays"
 for id in "$@"; do
-  out=$(VERIF_BUDGET_S=$budget ./check $id quick 2>&1); code=$?
+  case "$mode" in
+    quick|thorough) out=$(./check $id $mode 2>&1); code=$? ;;
+    *) out=$(VERIF_BUDGET_S=$mode ./check $id quick 2>&1); code=$? ;;
+  esac
+  echo "$out" > "$out_dir/$id.log"
   echo "== $id exit=$code $(echo "$out" | grep -E '^(wsim|dsim|osim): [0-9]' | head -1 | cut -c1-160)"
-  echo "$out" | grep -E "^finding|^VIOLATION" | cut -c1-300 | head -6
+  echo "$out" | grep -E "^finding|^VIOLATION|^  original" | cut -c1-300 | head -8
 done
-git -C /repo checkout -- . ; git -C /repo status --short | head -3
